@@ -1,6 +1,12 @@
+\* model checking from the empty system: the code's design holds
 SPECIFICATION Spec
 INVARIANT HomeIsChosen StatusFresh OneHomeBelief BeliefMatchesChoice
 CHECK_DEADLOCK FALSE
 CONSTANTS
   Urls = {"a", "b"}
   NoUrl = "none"
+  PromotedSetsUrl = FALSE
+  StartHome = "none"
+  StartOthers = {}
+  LateOnly = FALSE
+  KeepHist = FALSE
